@@ -86,4 +86,107 @@ def hasShape : List Kind → List Field → Bool
   | k :: ks, f :: fs => (kindOf f == k) && hasShape ks fs
   | _, _ => false
 
+/-! ## the attestation store (x/skyway/keeper: `GetStore`, `GetAttestationKey`, `Attest`)
+
+The module keeps everything in ONE flat key-value store. `GetStore(ctx, chainReferenceID)` is that store seen
+through the prefix `[]byte(chainReferenceID)` — the bytes of the id exactly as written in the claim, nothing
+normalised — and `GetAttestationKey(nonce, hash)` is `OracleAttestationKey ++ big-endian-8(nonce) ++ hash`. So
+the key an attestation really lives under is `flatKey chain nonce hash`; two claims are pooled iff these byte
+strings are equal. -/
+
+/-- `types.OracleAttestationKey` = md5("OracleAttestationKey") (x/skyway/types/key.go); the correspondence
+run compares `flatKey` with the key the keeper really writes into the module store -/
+def attPrefix : List Nat := [11, 250, 22, 95, 244, 239, 85, 139, 61, 11, 98, 234, 77, 74, 70, 197]
+
+/-- `UInt64Bytes`: 8 bytes, big endian -/
+def be8 (n : Nat) : List Nat :=
+  [n / 72057594037927936 % 256, n / 281474976710656 % 256, n / 1099511627776 % 256, n / 4294967296 % 256,
+   n / 16777216 % 256, n / 65536 % 256, n / 256 % 256, n % 256]
+
+/-- the key of an attestation in the module's flat store: chain prefix, attestation prefix, nonce, claim hash -/
+def flatKey (chain : List Nat) (nonce : Nat) (hash : List Nat) : List Nat :=
+  chain ++ (attPrefix ++ (be8 nonce ++ hash))
+
+/-- a claim as submitted: the voting validator, the chain id as written in the claim (bytes), the claim type
+and the values of the hashed fields in format order (skyway nonce first, remote height second) -/
+structure KVote where
+  val : Nat
+  chain : List Nat
+  ty : String
+  fields : List Field
+deriving DecidableEq, Repr
+
+def numAt (fs : List Field) (i : Nat) : Nat :=
+  match fs[i]? with
+  | some (.num n) => n
+  | _ => 0
+
+def KVote.nonce (v : KVote) : Nat := numAt v.fields 0
+def KVote.height (v : KVote) : Nat := numAt v.fields 1
+
+/-- a stored attestation: its key in the flat store, the body of the FIRST claim submitted under that key
+(chain id, type, hashed fields: this is what gets executed) and the validators whose votes are pooled -/
+structure KAtt where
+  key : List Nat
+  bodyChain : List Nat
+  bodyTy : String
+  body : List Field
+  votes : List Nat
+deriving DecidableEq, Repr
+
+/-- `log` is a ghost: the accepted votes, latest first -/
+structure KState where
+  atts : List KAtt
+  cursor : List (List Nat × Nat × Nat)
+  log : List KVote
+
+def KState.init : KState := { atts := [], cursor := [], log := [] }
+
+/-- `GetLastSkywayNonceByValidator(val, chain)`: kept in the store of the chain; 0 when never set -/
+def cursorOf : List (List Nat × Nat × Nat) → List Nat → Nat → Nat
+  | [], _, _ => 0
+  | e :: rest, chain, val => if e.1 = chain ∧ e.2.1 = val then e.2.2 else cursorOf rest chain val
+
+def lookup (k : List Nat) : List KAtt → Option KAtt
+  | [] => none
+  | b :: bs => if b.key = k then some b else lookup k bs
+
+def upsert (a : KAtt) : List KAtt → List KAtt
+  | [] => [a]
+  | b :: bs => if b.key = a.key then a :: bs else b :: upsert a bs
+
+def keyOf (H : List Nat → List Nat) (v : KVote) : List Nat :=
+  flatKey v.chain v.nonce (H (preimage v.fields))
+
+inductive KRes where
+  | rejected
+  | ok (isNew : Bool) (votes : Nat)
+deriving DecidableEq, Repr
+
+def addVote (votes : List Nat) (v : Nat) : List Nat := if votes.contains v then votes else votes ++ [v]
+
+/-- `Attest` (statement order of the Go code): the validator's cursor on the claim's chain must be one below
+the claim's nonce; the attestation is looked up under (store of the claim's chain, nonce, hash) and created
+with the submitted body when there is none; the remote height of the stored body must equal the claim's;
+the vote is appended unless already there; the cursor moves. `H` is the hash (`tmhash.Sum`). -/
+def attest (H : List Nat → List Nat) (s : KState) (v : KVote) : KState × KRes :=
+  if v.nonce ≠ cursorOf s.cursor v.chain v.val + 1 then (s, .rejected)
+  else
+    match lookup (keyOf H v) s.atts with
+    | none =>
+      ({ atts := upsert { key := keyOf H v, bodyChain := v.chain, bodyTy := v.ty, body := v.fields, votes := [v.val] } s.atts,
+         cursor := (v.chain, v.val, v.nonce) :: s.cursor, log := v :: s.log }, .ok true 1)
+    | some a =>
+      if numAt a.body 1 ≠ v.height then (s, .rejected)
+      else
+        ({ atts := upsert { a with votes := addVote a.votes v.val } s.atts,
+           cursor := (v.chain, v.val, v.nonce) :: s.cursor, log := v :: s.log },
+         .ok false (addVote a.votes v.val).length)
+
+/-- a history of claim submissions; the results, in order -/
+def runVotes (H : List Nat → List Nat) : KState → List KVote → KState × List KRes
+  | s, [] => (s, [])
+  | s, v :: vs =>
+    ((runVotes H (attest H s v).1 vs).1, (attest H s v).2 :: (runVotes H (attest H s v).1 vs).2)
+
 end Paloma.ClaimHash
